@@ -405,6 +405,12 @@ func main() {
 		if c.Kind == "fault" {
 			return replayFault(d, c.Fault)
 		}
+		if c.Kind == "many" {
+			if v := manyEntries(d, 300); v != "" {
+				return []kit.V{{Key: "many-entries " + violClass(v), What: v, Case: c}}
+			}
+			return nil
+		}
 		if c.Kind == "concurrent" {
 			return replayConc(d, c.Conc)
 		}
@@ -583,6 +589,9 @@ func main() {
 	r.Set("write_runs_with_one_failing_operation", fst.Failed)
 	r.Set("write_runs_with_one_short_write", fst.Short)
 	r.Set("of_which_reported_as_error", fst.ReportedErrors)
+	if v := manyEntries(filepath.Join(root, "manyroot"), 300); v != "" {
+		r.Violation("many-entries "+violClass(v), v, kase{Kind: "many"})
+	}
 	var couts []string
 	for o := range cst.Outcomes {
 		couts = append(couts, o)
@@ -596,7 +605,7 @@ func main() {
 	sort.Strings(pn)
 	r.Set("evaluations", done+rtDone)
 	r.Set("distinct_nontrivial", outside+atomic.LoadInt64(&st.quoted)+atomic.LoadInt64(&st.archived))
-	r.Set("rule", "containment: every entry name of <= 4 segments over {a,b,.,..,empty} with and without leading / trailing slash, plus specials, alone (x 3 pre-populated directories), 10 names x 7 pre-existing symbolic links called a (to directories outside and inside, to a file outside, dangling, to '..' and '.') and paired with 6 second entries in both orders, in-process and through the txtar-x binary; round trip: every tree of <= 2 (thorough 3) files over 10 paths x 9 contents x 4 flag sets through the built txtar-c and txtar-x, the directory argument spelled d, absolute, '.', './', 'd/', './d' or '../w/d' in rotation; concurrent writers: every interleaving (three writers: preemption bound 2, thorough 3) of the file operations of 2-3 Write calls into one directory over 8 scenarios (same name, other spelling, new subdirectory, crossed pairs, pre-existing file), judged at the end; faults: every file operation of Write failing in turn, and every data write cut short after 1, 7 or 512 bytes, for three archives. non-trivial = containment cases with an escaping name + files actually archived and compared + files restored through Unquote (counted)")
+	r.Set("rule", "containment: every entry name of <= 4 segments over {a,b,.,..,empty} with and without leading / trailing slash, plus specials, alone (x 3 pre-populated directories), 10 names x 7 pre-existing symbolic links called a (to directories outside and inside, to a file outside, dangling, to '..' and '.') and paired with 6 second entries in both orders, in-process and through the txtar-x binary; round trip: every tree of <= 2 (thorough 3) files over 10 paths x 9 contents x 4 flag sets through the built txtar-c and txtar-x, the directory argument spelled d, absolute, '.', './', 'd/', './d' or '../w/d' in rotation; concurrent writers: every interleaving (three writers: preemption bound 2, thorough 3) of the file operations of 2-3 Write calls into one directory over 8 scenarios (same name, other spelling, new subdirectory, crossed pairs, pre-existing file), judged at the end; faults: every file operation of Write failing in turn, and every data write cut short after 1, 7 or 512 bytes, for three archives; an archive of 300 files extracted while only two dozen more descriptors may be opened (in-process and through txtar-x under ulimit -n 32). non-trivial = containment cases with an escaping name + files actually archived and compared + files restored through Unquote (counted)")
 	r.Set("containment_cases", done)
 	r.Set("containment_cases_with_escaping_name", outside)
 	r.Set("containment_cases_via_txtar_x", viaX)
